@@ -68,6 +68,7 @@ type World struct {
 	podIndex   map[string]int // pod object name -> 1-based scenario pod index
 	slow       map[string]bool // env slowbind: BindRequests of multi-device pods that were left half way once
 	acct       *acctRec        // optional (Options.Acct): node accounting observed at every simulation step (acctobs.go)
+	stmtobs    *stmtRec        // optional (Options.Stmt): abandoned statement scopes of real cycles (stmtobs.go)
 	nodeIndex  map[string]int
 	jobIndex   map[string]int
 	queueIndex map[string]int
@@ -520,6 +521,9 @@ func (w *World) stmtHook(s *framework.Statement, ev string, task *pod_info.PodIn
 	if w.acct != nil {
 		w.acct.observe(ev, task)
 	}
+	if w.stmtobs != nil {
+		w.stmtobs.observe(s, ev, task, arg)
+	}
 }
 
 // RunCycle runs one cycle; panics are caught and reported in the CycleEnd event.
@@ -568,12 +572,22 @@ func (w *World) RunCycle(c int) (err error) {
 		if w.acct != nil {
 			w.acct.open(ssn, c)
 		}
+		if w.stmtobs != nil {
+			w.stmtobs.open(ssn, c)
+			defer w.stmtobs.close()
+		}
 		acts, _ := conf_util.GetActionsFromConfig(sconf)
 		for _, a := range acts {
 			w.curAction = string(a.Name())
 			w.emit(map[string]any{"ev": "ActionStart", "name": w.curAction})
+			if w.stmtobs != nil {
+				w.stmtobs.boundary("action-start")
+			}
 			a.Execute(ssn)
 			w.emit(map[string]any{"ev": "ActionDone", "name": w.curAction})
+			if w.stmtobs != nil {
+				w.stmtobs.boundary("action-done")
+			}
 			if w.acct != nil {
 				w.acct.observe("action-done", nil)
 			}
@@ -771,6 +785,10 @@ type Options struct {
 	// Acct, when set, receives the node-accounting observations of every simulation step (acctobs.go): a second
 	// trace in the record shapes of spec/NodeAcctCycleTrace.tla. The decision trace is not affected.
 	Acct Emitter
+	// Stmt, when set, receives one record per statement scope that the real actions / solvers abandon (Rollback to a
+	// checkpoint, Discard) with the projections of the session view before and after (stmtobs.go): a third trace in the
+	// record shapes of spec/StmtCycleTrace.tla. The decision trace is not affected.
+	Stmt Emitter
 }
 
 // Run executes the whole scenario: Scenario line, then cycles with environment steps in between.
@@ -784,6 +802,9 @@ func RunWith(sc *Scenario, emit Emitter, opt Options) error {
 	defer w.Close()
 	if opt.Acct != nil {
 		w.acct = newAcctRec(w, opt.Acct)
+	}
+	if opt.Stmt != nil {
+		w.stmtobs = newStmtRec(w, opt.Stmt)
 	}
 	emit(map[string]any{"ev": "Scenario", "id": sc.ID, "class": sc.Class, "cfg": sc.Cfg, "nodes": sc.Nodes, "queues": sc.Queues,
 		"jobs": sc.Jobs, "pods": sc.Pods, "topo": sc.Topo})
